@@ -154,7 +154,8 @@ pub fn gen_program<F: PrimeField>(rng: &mut ChaChaRng, sh: &Shape) -> GenProg<F>
                 prog.push(COp::Mul(l, r));
             }
             20..=39 => {
-                if sh.allow_missing && rng.gen_range(0..6) == 0 {
+                let miss = if m.pending.is_some() { 3 } else { 8 };
+                if sh.allow_missing && rng.gen_range(0..miss) == 0 {
                     prog.push(COp::Alloc(None));
                 } else {
                     let x: F = edge_scalar(rng);
@@ -232,6 +233,12 @@ pub fn gen_program<F: PrimeField>(rng: &mut ChaChaRng, sh: &Shape) -> GenProg<F>
                     m.r.push(rv.clone());
                     m.o.push(Sx::mul(lv, rv));
                     body.push(ROp::Mul(l, r));
+                }
+                35..=49 if sh.allow_missing && rng.gen_range(0..(if m.pending.is_some() { 3 } else { 8 })) == 0 => {
+                    body.push(ROp::Alloc(None));
+                }
+                50..=61 if sh.allow_missing && rng.gen_range(0..8) == 0 => {
+                    body.push(ROp::AllocMul(None));
                 }
                 35..=49 => {
                     let x = rand_coeff::<F>(rng, nch);
